@@ -17,6 +17,10 @@ const PROTO_P: u64 = 7;
 const PROTO_Q: u64 = 8;
 
 fn srv_addr(i: u64) -> SocketAddr {
+    // 51..: the IP address of public address (i - 50) with ANOTHER port (another server instance on the same machine)
+    if i > 50 && i < 100 {
+        return format!("127.0.0.{}:5001", i - 50).parse().unwrap();
+    }
     format!("127.0.0.{}:5000", i).parse().unwrap()
 }
 fn cli_addr(i: u64) -> SocketAddr {
@@ -27,7 +31,8 @@ fn addr_idx(a: SocketAddr) -> i64 {
         SocketAddr::V4(v) => {
             let o = v.ip().octets();
             if o[0] == 127 {
-                100 + o[3] as i64
+                // port 5001: the same machine as public address o[3], another server instance (host numbers 51..)
+                100 + o[3] as i64 + if v.port() == 5001 { 50 } else { 0 }
             } else {
                 o[3] as i64
             }
@@ -1135,7 +1140,18 @@ impl<W: Write> NcRunner<W> {
             "rt_token" => {
                 let hosts: Vec<SocketAddr> = st["hosts"].as_array().map(|a| a.iter().map(|x| {
                     let v = x.as_u64().unwrap_or(1);
-                    if v >= 1000 { format!("[2001:db8::{:x}]:{}", v, 6000 + v % 100).parse().unwrap() } else { srv_addr(v % 250 + 1) }
+                    // 3000..: IPv6 addresses of special blocks (IPv4-mapped ::ffff:a.b.c.d, IPv4-compatible, loopback, unspecified-like,
+                    // link-local): a token lists the address it was given, whatever block it is from
+                    if v >= 3000 {
+                        let k = v - 3000;
+                        match k % 5 {
+                            0 => format!("[::ffff:10.1.{}.{}]:{}", (k / 5) % 200, k % 200 + 1, 6100 + k % 100).parse().unwrap(),
+                            1 => format!("[::10.2.{}.{}]:{}", (k / 5) % 200, k % 200 + 1, 6100 + k % 100).parse().unwrap(),
+                            2 => format!("[::1]:{}", 6100 + k % 100).parse().unwrap(),
+                            3 => format!("[fe80::{:x}]:{}", k + 1, 6100 + k % 100).parse().unwrap(),
+                            _ => format!("[64:ff9b::a01:{:x}]:{}", k + 1, 6100 + k % 100).parse().unwrap(),
+                        }
+                    } else if v >= 1000 { format!("[2001:db8::{:x}]:{}", v, 6000 + v % 100).parse().unwrap() } else { srv_addr(v % 250 + 1) }
                 }).collect()).unwrap_or_default();
                 let r = guarded(|| {
                     let t = match ConnectToken::generate(Duration::from_secs(getu(st, "create")), PROTO_P, getu(st, "expire_s"), getu(st, "id"), geti(st, "timeout_s") as i32,
